@@ -124,6 +124,7 @@ def rand_key(rng, known):
 
 
 SM_KEYS = ["TITLE", "SUBTITLE", "ARTIST", "BANNER", "OFFSET", "BPMS", "STOPS", "ATTACKS", "DISPLAYBPM", "BGCHANGES", "FREEZES", "ANIMATIONS", "CREDIT", "MUSIC", "SELECTABLE"]
+SM_EDIT_KEYS = SM_KEYS + ["VERSION", "VERSION"]      # an SM simfile may carry a VERSION property too
 SSC_KEYS = SM_KEYS + ["VERSION", "WARPS", "DELAYS", "LABELS", "ORIGIN", "JACKET", "COMBOS"]
 CHART_KEYS = ["CHARTNAME", "STEPSTYPE", "DESCRIPTION", "CHARTSTYLE", "DIFFICULTY", "METER", "RADARVALUES", "CREDIT", "BPMS", "OFFSET", "DISPLAYBPM", "ATTACKS", "MUSIC", "STOPS", "WARPS"]
 
@@ -280,10 +281,32 @@ def rand_clean_text(rng, ssc):
     return "".join(parts)
 
 
+def rand_escaped_text(rng, ssc):
+    """well-formed text in which each value needs at most one kind of escape (a backslash alone, a colon alone, ...)"""
+    val = lambda: rng.choice(["K\\\\O mix", "a\\\\", "\\\\", "a\\:b", "a\\;b", "x\\/\\/y", "plain", "two words", "", "\\\\n", "C:\\\\dir"])
+    parts = []
+    if ssc:
+        parts.append("#VERSION:0.83;\n")
+    for k in rng.sample(SSC_KEYS[:15] if ssc else SM_KEYS, rng.randrange(0, 4)):
+        parts.append("#%s:%s;\n" % (k, val()))
+    for _ in range(rng.choice([1, 1, 2, 3])):
+        if ssc:
+            parts.append("#NOTEDATA:;\n")
+            for k in rng.sample(CHART_KEYS[:6], rng.randrange(0, 4)):
+                parts.append("#%s:%s;\n" % (k, val()))
+            parts.append("#NOTES:\n0000\n0000\n;\n")
+        else:
+            parts.append("#NOTES:dance-single:%s:Easy:%d:0,0:\n0000\n0000\n;\n" % (val(), rng.randrange(1, 20)))
+    return "".join(parts)
+
+
 def rand_msd_text(rng, ssc=None):
     ssc = rng.random() < 0.5 if ssc is None else ssc
-    if rng.random() < 0.2:
+    r0 = rng.random()
+    if r0 < 0.2:
         return rand_clean_text(rng, ssc)
+    if r0 < 0.32:
+        return rand_escaped_text(rng, ssc)
     keys = (SSC_KEYS + ["NOTEDATA", "NOTES", "NOTES2"] + CHART_KEYS[:6]) if ssc else (SM_KEYS + ["NOTES", "NOTES"])
     parts = []
     if rng.random() < 0.15:
